@@ -314,6 +314,19 @@ def run(ctx, col: Collector):
                   f'render_note has {len(calls)} sanitised branches (expected 3)', node=rn.node, file=rn.file)
     guarded(col, 'C13-sql', 'sql-sinks', sql_sinks)
 
+    # ---------------------------------------------------------------- C13-token (the reader's side of the text tokens: shared with C01-lex)
+    def tokens():
+        # "expression text is passed through verbatim" and "the same stored text comes back" need the reader to return the characters between the quotes /
+        # backticks as they stand: the lexical obligations of C01 on the string and expression tokens
+        sub = ctx.sub('c01', col.prop)
+        n = 0
+        for o in sub.obs:
+            if o.rule == 'C01-lex' and o.construct.startswith(('expression', 'string')):
+                n += 1
+                col.obs.append(type(o)(col.prop, 'C13-token', o.construct, o.status, o.msg, o.file, o.line, o.extra))
+        col.floor('C13-token', 'lexical obligations on string and expression tokens', n, 2)
+    guarded(col, 'C13-token', 'tokens', tokens)
+
     # ---------------------------------------------------------------- C13-normalise
     def normalise():
         for cname in ('NoteBlueprint', 'StickyNoteBlueprint'):
